@@ -16,7 +16,13 @@ object) x every subset of None positions at lengths 0..4 x
   * per-group aggregates: aggregate() and window() with sum / mean / min / max / count / stdev over tables
     of 1..3 groups drawn from 9 group shapes (one None row, all None, one real value, None before / after /
     between values ...), rows grouped or interleaved, six value kinds: every group's value against the
-    textbook value of its non-None values and against the Vector reduction of the same group.
+    textbook value of its non-None values and against the Vector reduction of the same group;
+  * receivers with a history ("nullable-flagged, None-free" and relatives): the same contents reached by a
+    boolean-list / boolean-vector / isna mask, an index list, a slice or a table row selection of a longer
+    nullable vector, by overwriting a None (by position or by mask), by an explicit nullable dtype, and
+    copies of those: isna / dropna / fillna(x) for the whole fill pool (None, same kind, promoting, foreign),
+    their mutual agreement, the unary operators and every reduction, schema and values against the statement
+    exactly as for a freshly built vector.
 Oracle: plain Python over the list (None-free list for reductions).  Where Python itself does not
 define the scalar operation (TypeError ...) or the statement gives no value (min/max of nothing,
 fillna with an incompatible kind that is rejected) the case is skipped.
@@ -197,9 +203,105 @@ def cases_strengthen(tier):
                                        'a': '[None]'}
 
 
+# ---- receivers with a history --------------------------------------------------------------------
+DERIVS = ['mask-list', 'mask-vector', 'mask-isna', 'index-list', 'slice', 'table-rows', 'copy-of-mask',
+          'overwrite', 'overwrite-mask', 'explicit-nullable']
+
+
+def deriv_positions(deriv, n, tier):
+    """Where the extra None sits in the longer parent (selection) / which position is overwritten."""
+    if deriv == 'explicit-nullable':
+        return [0]
+    if deriv in ('overwrite', 'overwrite-mask'):
+        allpos = list(range(n))
+    elif deriv == 'slice':
+        allpos = [0, n] if n else [0]
+    else:
+        allpos = list(range(n + 1))
+    if tier == 'quick' and len(allpos) > 1:
+        return [allpos[min(1, len(allpos) - 1)]] if deriv != 'slice' else allpos
+    return allpos
+
+
+def parent_vector(vals, dt):
+    if all(x is None for x in vals):
+        return Vector(list(vals), dtype=DataType(KIND[dt], nullable=True)), f'Vector({lit(vals)}, dtype=DataType({dt}, nullable=True))'
+    return Vector(list(vals)), f'Vector({lit(vals)})'
+
+
+def derive(vals, dt, d):
+    """(vector, source text) holding exactly vals, produced through the history d = {'how', 'pos'}."""
+    how, pos = d['how'], d['pos']
+    n = len(vals)
+    if how == 'explicit-nullable':
+        return Vector(list(vals), dtype=DataType(KIND[dt], nullable=True)), f'Vector({lit(vals)}, dtype=DataType({dt}, nullable=True))'
+    if how in ('overwrite', 'overwrite-mask'):
+        parent = list(vals)
+        parent[pos] = None
+        v, src = parent_vector(parent, dt)
+        if how == 'overwrite':
+            v[pos] = vals[pos]
+            return v, f'v = {src}; v[{pos}] = {lit(vals[pos])}'
+        mask = [i == pos for i in range(n)]
+        v[mask] = vals[pos]
+        return v, f'v = {src}; v[{mask}] = {lit(vals[pos])}'
+    parent = list(vals[:pos]) + [None] + list(vals[pos:])
+    keep = [i != pos for i in range(n + 1)]
+    v, src = parent_vector(parent, dt)
+    if how == 'mask-list':
+        return v[keep], f'{src}[{keep}]'
+    if how == 'mask-vector':
+        return v[Vector(keep)], f'{src}[Vector({keep})]'
+    if how == 'mask-isna':
+        if any(x is None for x in vals):
+            raise Skip()
+        return v[v.isna() == False], f'v = {src}; v[v.isna() == False]'      # noqa: E712
+    if how == 'index-list':
+        idx = [i for i in range(n + 1) if i != pos]
+        if not idx:
+            raise Skip()
+        return v[idx], f'{src}[{idx}]'
+    if how == 'slice':
+        return (v[1:], f'{src}[1:]') if pos == 0 else (v[:n], f'{src}[:{n}]')
+    if how == 'copy-of-mask':
+        return v[keep].copy(), f'{src}[{keep}].copy()'
+    if how == 'table-rows':
+        t = Table({'x': v, 'y': list(range(n + 1))})
+        return t[keep]['x'], f"Table({{'x': {src}, 'y': {list(range(n + 1))}}})[{keep}]['x']"
+    raise Skip()
+
+
+def cases_history(tier):
+    for dt in BASE:
+        vecs = []
+        top = 3 if tier == 'quick' else 4
+        for n in range(top + 1):
+            for m in masks(n):
+                if tier == 'quick' and (sum(m) > 1 or (sum(m) == 1 and n < 2)):
+                    continue
+                vecs.append(apply_mask(BASE[dt][:n], m))
+        for vals in vecs:
+            for how in DERIVS:
+                for pos in deriv_positions(how, len(vals), tier):
+                    if how in ('overwrite', 'overwrite-mask') and vals[pos] is None:
+                        continue
+                    d = {'how': how, 'pos': pos}
+                    base = {'dt': dt, 'a': lit(vals), 'typed': False, 'deriv': d}
+                    yield dict(base, k='tri')
+                    yield dict(base, k='tri3')
+                    for x in FILL:
+                        yield dict(base, k='fill', x=lit(x))
+                    for r in REDUCTIONS:
+                        yield dict(base, k='red', r=r)
+                    if tier != 'quick':
+                        for op in UNOPS:
+                            yield dict(base, k='unary', op=op)
+
+
 def cases(tier, seed):
     yield from cases_base(tier, seed)
     yield from cases_strengthen(tier)
+    yield from cases_history(tier)
 
 
 def cases_base(tier, seed):
@@ -251,7 +353,12 @@ def cases_base(tier, seed):
 
 # --------------------------------------------------------------------------------------------
 
-def mkvec(vals, dt, typed, obj=False):
+def mkvec(vals, dt, typed, obj=False, deriv=None):
+    if deriv:
+        v, _ = derive(list(vals), dt, deriv)
+        if not isinstance(v, Vector) or isinstance(v, Table) or not same(list(v), list(vals)):
+            raise Skip()                            # the history did not produce these contents: not C06's business
+        return v
     if typed:
         return Vector(list(vals), dtype=DataType(KIND[dt], nullable=bool(vals)))
     if obj:
@@ -260,6 +367,11 @@ def mkvec(vals, dt, typed, obj=False):
 
 
 def vsrc(case):
+    if case.get('deriv'):
+        try:
+            return '(' + derive(cev(case['a']), case['dt'], case['deriv'])[1] + ')'
+        except Exception:
+            return f'<{case["deriv"]["how"]} history of {case["a"]}>'
     if case.get('typed'):
         return f'Vector({case["a"]}, dtype=DataType({case["dt"]}, nullable={case["a"] != "[]"}))'
     if case.get('obj'):
@@ -371,7 +483,7 @@ def eval_unary(case):
     expr = f'{op} {vsrc(case)}'
     has_none = any(x is None for x in a)
     try:
-        v = mkvec(a, dt, case['typed'])
+        v = mkvec(a, dt, case['typed'], deriv=case.get('deriv'))
         r = f(v)
     except Exception as e:
         if not has_none:
@@ -528,7 +640,7 @@ def eval_red(case):
         return []                                   # Python does not define the reduction for this kind
     s = f'Vector.{r}' if r != 'len' else 'Vector.__len__'
     try:
-        v = mkvec(a, dt, case['typed'])
+        v = mkvec(a, dt, case['typed'], deriv=case.get('deriv'))
         got = len(v) if r == 'len' else getattr(v, r)()
     except Exception as e:
         cls = 'none-not-skipped' if has_none else f'raised-{type(e).__name__}'
@@ -558,7 +670,7 @@ def eval_tri(case):
     src = vsrc(case)
     fails = []
     try:
-        v = mkvec(a, dt, case['typed'], case.get('obj'))
+        v = mkvec(a, dt, case['typed'], case.get('obj'), case.get('deriv'))
         before = view(v)
     except Exception as e:
         return [Fail('C06:Vector.new:raised' + ('-to_object' if case.get('obj') else ''), f'{src}: {e!r}', None, None)]
@@ -636,7 +748,7 @@ def eval_fill(case):
     x = cev(case['x'])
     src = f'{vsrc(case)}.fillna({case["x"]})'
     try:
-        v = mkvec(a, dt, case['typed'], case.get('obj'))
+        v = mkvec(a, dt, case['typed'], case.get('obj'), case.get('deriv'))
         before = view(v)
     except Exception as e:
         return [Fail('C06:Vector.new:raised' + ('-to_object' if case.get('obj') else ''), f'{src}: {e!r}', None, None)]
@@ -682,16 +794,23 @@ def eval_fill(case):
     return fails
 
 
+TRI3_SENTINEL = {'int': 99, 'float': 99.5, 'bool': True, 'complex': 99.5j, 'str': 'zz', 'date': date(1999, 1, 1),
+                 'datetime': datetime(1999, 1, 1, 0, 0), 'object': 99.5}
+
+
 def eval_tri3(case):
     """isna / dropna / fillna on one vector, compared with one another position by position."""
     dt = case['dt']
     a = cev(case['a'])
     src = vsrc(case)
     try:
-        v = mkvec(a, dt, case['typed'], case.get('obj'))
+        v = mkvec(a, dt, case['typed'], case.get('obj'), case.get('deriv'))
     except Exception:
         return []                                   # reported by the 'tri' case of the same vector
+    # a fill value of the vector's own kind where the case says so (no promotion: positions compare type-exactly)
     sentinel = 99.5
+    if case.get('deriv') and v.schema() is not None:        # the kind actually held (an object pool prefix may infer int)
+        sentinel = TRI3_SENTINEL.get(v.schema().kind.__name__, 99.5)
     try:
         m, d, f = list(v.isna()), list(v.dropna()), list(v.fillna(sentinel))
     except Exception:
@@ -705,7 +824,7 @@ def eval_tri3(case):
         fails.append(Fail('C06:triangle:dropna-vs-isna', f'{src}: dropna() = {d!r} but isna() = {m!r} marks {kept!r} as present', kept, d))
     replaced = [not same(x, y) for x, y in zip(cur, f)]
     if replaced != [bool(x) for x in m]:
-        fails.append(Fail('C06:triangle:fillna-vs-isna', f'{src}: fillna({sentinel}) = {f!r} replaces positions {replaced!r} but isna() = {m!r}', m, replaced))
+        fails.append(Fail('C06:triangle:fillna-vs-isna', f'{src}: fillna({sentinel!r}) = {f!r} replaces positions {replaced!r} but isna() = {m!r}', m, replaced))
     if len(d) != len(cur) - sum(replaced):
         fails.append(Fail('C06:triangle:fillna-vs-dropna', f'{src}: fillna replaces {sum(replaced)} positions, dropna removes {len(cur) - len(d)}',
                           len(cur) - sum(replaced), len(d)))
@@ -866,6 +985,17 @@ EVAL = {'arith': eval_arith, 'unary': eval_unary, 'cmp': eval_cmp, 'red': eval_r
 
 def evaluate(case):
     try:
+        if case.get('deriv'):
+            try:
+                probe = mkvec(cev(case['a']), case['dt'], False, deriv=case['deriv'])
+            except Exception:
+                return []                           # selection / write itself failed: C07 / C08's business
+            fails = EVAL[case['k']](case)
+            sch = probe.schema()
+            stale = sch is not None and sch.nullable and not any(x is None for x in probe._underlying)
+            for f in fails:                         # a defect that needs a receiver with a history gets its own key
+                f['key'] += ':none-free-nullable-receiver' if stale else ':derived-receiver'
+            return fails
         return EVAL[case['k']](case)
     except Exception as e:
         return [Fail(f'C06:harness:{case["k"]}:oracle-crash', f'{type(e).__name__}: {e}', None, None)]
@@ -875,6 +1005,8 @@ def nontrivial(case):
     if case['k'] == 'grp':
         return ('grp', case['fn'], case['dt'], tuple(case['shapes']), case['layout'], tuple(case['aggs']), case['how'])
     a = cev(case['a'])
+    if case.get('deriv'):
+        return ('hist', case['k'], case['dt'], case['deriv']['how'], tuple(x is None for x in a), case.get('x') or case.get('r') or case.get('op'))
     if case.get('nan'):
         pat = tuple('N' if x is None else ('n' if isinstance(x, float) and x != x else 'v') for x in a)
         return (case['k'], case['dt'], pat, case.get('x'), case.get('obj'))
@@ -897,9 +1029,11 @@ if __name__ == '__main__':
               '(all-None and empty also as explicitly typed vectors) x {7 binary arithmetic operators in vector/scalar/list/reflected forms '
               'with None subsets on the other operand too, 3 unary operators, 6 comparisons in the same forms incl. date vs date/ISO-str/datetime, '
               '7 reductions + len, isna/dropna, fillna with a 10-value pool}; NaN-as-a-value sequences through isna/dropna/fillna and their '
-              'mutual agreement; aggregate()/window() sum/mean/min/max/count/stdev per group vs textbook and vs the Vector reduction.  Oracle: Python on the list / the None-free list; '
+              'mutual agreement; receivers with a history (same contents reached by mask / index list / slice / table row selection of a longer nullable vector, by overwriting a None, '
+              'by an explicit nullable dtype - typically flagged nullable while holding no None) through isna/dropna/fillna(pool)/reductions; aggregate()/window() sum/mean/min/max/count/stdev per group vs textbook and vs the Vector reduction.  Oracle: Python on the list / the None-free list; '
               'cases Python does not define are skipped.  distinct = cases with at least one None, by (operation, dtype, partner, form, None placement)',
          bound=lambda tier: {'max_len': 4, 'dtypes': 8, 'fill_pool': 10,
                              'len4_right_masks': 'reduced (4 placements)' if tier == 'quick' else 'all 16',
-                             'nan_block': 'all sequences over {value, NaN, None}, lengths 0..4', 'groups': '1..3 groups from 9 shapes, 6 kinds'},
+                             'nan_block': 'all sequences over {value, NaN, None}, lengths 0..4', 'history_derivations': DERIVS,
+                             'history_vectors': 'None-free lengths 0..3 + one None at lengths 2..3, one position' if tier == 'quick' else 'every None subset at lengths 0..4, every position', 'groups': '1..3 groups from 9 shapes, 6 kinds'},
          nontrivial=nontrivial)
